@@ -161,6 +161,54 @@ func GenTar(d Draw, seed uint64, o GenOpts) *TarSpec {
 		}
 		ts.Entries = append(ts.Entries, e)
 	}
+	if o.Whiteouts {
+		// OCI whiteouts (.wh.X), opaque markers, and user files named like landmarks in sub-directories
+		alld := append([]string{""}, dirs...)
+		for k := 0; k < 1+d(4); k++ {
+			dir := alld[d(len(alld))]
+			var name string
+			switch d(5) {
+			case 0:
+				name = path.Join(dir, ".wh..wh..opq")
+			case 1: // whiteout of a name that also exists as a regular file in this layer
+				if len(regs) > 0 {
+					r := regs[d(len(regs))]
+					name = path.Join(path.Dir(r), ".wh."+path.Base(r))
+				}
+			case 2:
+				if dir != "" {
+					name = path.Join(dir, []string{".prefetch.landmark", ".no.prefetch.landmark"}[d(2)])
+				}
+			default:
+				name = path.Join(dir, ".wh."+nameParts[d(len(nameParts))]+"w")
+			}
+			name = strings.TrimPrefix(name, "./")
+			if name == "" || name == "." {
+				continue
+			}
+			if _, dup := used[name]; dup {
+				continue
+			}
+			// the target of a whiteout must not be a directory of the same layer (excluded by the property)
+			base := path.Base(name)
+			if strings.HasPrefix(base, ".wh.") && base != ".wh..wh..opq" {
+				if t, ok := used[path.Join(path.Dir(name), strings.TrimPrefix(base, ".wh."))]; ok && t == tar.TypeDir {
+					continue
+				}
+			}
+			ok := true
+			for p := path.Dir(name); p != "." && p != "/"; p = path.Dir(p) {
+				if t, exists := used[p]; exists && t != tar.TypeDir {
+					ok = false
+				}
+			}
+			if !ok {
+				continue
+			}
+			used[name] = tar.TypeReg
+			ts.Entries = append(ts.Entries, Entry{Name: name, Type: tar.TypeReg, Mode: 0644, MTime: 1_600_000_000})
+		}
+	}
 	if len(ts.Entries) == 0 {
 		ts.Entries = append(ts.Entries, Entry{Name: "only", Type: tar.TypeReg, Mode: 0644, Data: fileData(seed, cs+1), MTime: 1_600_000_000})
 	}
